@@ -82,7 +82,9 @@ Proof.
   pose proof (CompFactsVM.vm_runs_isem_lemma (snd (ucode prog3)) (fst (ucode prog3)) 4 100) as H.
   assert (E : isem_code (fst (ucode prog3)) (snd (ucode prog3)) [] = CRet [VNum 7; VBool false]) by (vm_compute; reflexivity).
   rewrite E in H. apply H; try lia.
-  - vm_compute. repeat constructor; discriminate.
+  - apply Forall_forall. intros wl Hin.
+    assert (A : forallb (fun wl => (0 <=? fst wl) && (fst wl <? 2 ^ 32)) (snd (ucode prog3)) = true) by (vm_compute; reflexivity).
+    rewrite forallb_forall in A. specialize (A _ Hin). lia.
   - vm_compute. lia.
 Qed.
 
